@@ -1019,7 +1019,7 @@ def witness_search(pid, new, tier, seed, replay_path):
             return w
         return None
     units = {f['obligation'].split('/')[0].split('_')[0] for f in new}
-    want_env = bool(units & {'env', 'menv'}) and pid in ENV_SEARCH_PROPS
+    want_env = bool(units & {'env', 'menv', 'market'}) and pid in ENV_SEARCH_PROPS   # MarketEnv is built on Market: a refuted Market contract is searched through the environment too
     want_book = bool(units - {'env', 'menv'}) and pid in SEARCH_PROPS
     if pid in ('C10', 'C11', 'C14', 'C08'):
         want_env = True
